@@ -8,7 +8,8 @@ Programs arrive in postfix form, items separated by `,` (no blanks):
 `L<names>:<k>` local · `A<vars>:<k>` assignment · `U<n>;<ps>:<b>` local function · `G<n>;<ps>:<b>`
 function statement · `N<v>:<b>` numeric for (e1 e2 body) · `I<vs>:<b>` generic for (e body) ·
 `W:<b>` while (c body) · `R:<b>` repeat (body c) · `D:<b>` do · `T:<t>:<e>` if (c then else) ·
-`S<f>:<k>` call statement. The final stack is the chunk.
+`S<f>:<k>` call statement · `K<n>` local with attribute (value on the stack) · `M<obj>;<k>;<0|1>;<ps>:<b>` function
+statement with `k` field names, `1` = method (`:`). The final stack is the chunk.
 Ops: `ref`, `impl` (resolution lists `pos:decl|g`), `rename`, `refs`, `alpha`. -/
 namespace Drv.Scope
 open _root_.Scope
@@ -75,6 +76,11 @@ def step (st : List V) (item : String) : Option (List V) :=
     let (c, st) ← popExpr rt.2
     pure (.s (.if_ c rt.1 re.1) :: st)
   | 'S', [f, k] => do let r ← popExprs (← k.toNat?) st; pure (.s (.callS (← f.toNat?) r.1) :: r.2)
+  | 'K', [n] => do let (e, st) ← popExpr st; pure (.s (.loclAttr (← n.toNat?) e) :: st)
+  | 'M', [hd, b] => do
+    let [obj, k, c, ps] := hd.splitOn ";" | none
+    let r ← popStats (← b.toNat?) st
+    pure (.s (.method (← obj.toNat?) (← k.toNat?) (c == "1") (← names ps) r.1) :: r.2)
   | _, _ => none
 
 def parse (s : String) : Option (List Stat) := do
@@ -105,6 +111,9 @@ def encStat : Stat → List String
   | .do_ body => encBlock body ++ [s!"D:{body.length}"]
   | .if_ c t e => encExpr c ++ encBlock t ++ encBlock e ++ [s!"T:{t.length}:{e.length}"]
   | .callS f args => encExprs args ++ [s!"S{f}:{args.length}"]
+  | .loclAttr n val => encExpr val ++ [s!"K{n}"]
+  | .method obj k colon ps body =>
+    encBlock body ++ [s!"M{obj};{k};{if colon then "1" else "0"};{showNames ps}:{body.length}"]
 def encBlock : List Stat → List String
   | [] => []
   | st :: rest => encStat st ++ encBlock rest
